@@ -42,6 +42,31 @@ of `Model/Reactive.lean` (the model and its theorems are untouched):
   Not admitted: `set` / `wr` on a key node, `pause` / `resume` / `dispose` on a selector node, reading a
   selector node (all `bad-op`); `pauseall` / `resumeall` reach the selector like every effect.
   The selector body's `U t_j` reads are not counted as untracked reads of the program (`untrackedFreeD`).
+* `memoh <expr>` — leaf memo with the asymmetric comparator `new > old`: as `memoc`.
+* `wrap 3|4|5` — reads (and for 3 also writes) through `MappedSignal` / `MaybeSignal` / `MaybeProp`: transparent.
+* `ssig a b` / `slice f g s` / `sset <slice> v` — an `RwSignal` holding a struct of two fields and `create_slice`
+  (`create_read_slice` = `Memo::new(move |_| signal.with(getter))`, `create_write_slice` = `signal.update(..)`).
+  Desugaring: the struct signal is two `sig` nodes (its fields), a slice whose getter shows field g is the memo
+  `seq R<other field> R<field g>` - subscribed to BOTH fields, as the real memo is subscribed to the whole signal, so a
+  write to either field marks it dirty and it recomputes (run counts agree) while its value only follows field g
+  (equality cut-off agrees).  `sset <slice> v` = `set <field s> v`.  Because only slices subscribe to field nodes and
+  every slice subscribes to both, the subscriber list of each field equals the real signal's.  Field nodes cannot be
+  read or written by other bodies (`bad-op`): a direct reader would subscribe to one field only.
+* `weff|wieff|wseff|wsieff [h<id>] <expr>` — `Effect::watch` / `watch_sync`; the handler's read of signal `<id>` is by
+  contract untracked and its value goes nowhere: dropped (after checking that `<id>` is a plain signal).
+* `rieff` — `RenderEffect::new_isomorphic`: as `reff`.
+* `oncl` — every effect run registers one `on_cleanup`; C02 lines then end in ` cl=<node>:<calls>,…` = for every effect,
+  one call per run of this op that superseded an earlier run, plus one when it is disposed after having run.
+* `imeff <expr>` — `ImmediateEffect::new`: no task; the real effect runs inside the notification that reaches it.
+  Desugaring: an `eff` node that runs at creation and is polled to completion after every primitive step (`set`, each
+  single poll - `idle` is iterated here -, reads, creations) that leaves it woken; it never shows in `ready=` / `woke=`.
+  This equals the real behaviour only when one write changes at most one of the nodes the effect reads directly; the
+  driver (and the harness) therefore admit an `imeff` body only if it has no write, no untracked read, its directly
+  read nodes are signals or memos over signals only (depth ≤ 1) and have pairwise disjoint signal ancestors, none of
+  them a selector key (`immOk`); otherwise `bad-op`.  Outside that class the unchanged code runs the effect (and, through
+  longer memo chains, a memo) twice per change and lets it see new + old values: real behaviour, demonstrated by
+  hooks/imm-glitch-demo, that the model cannot reproduce without running effects inside notifications.
+  In `eruns=` the runs of immediate effects are listed after the others, by node id.
 -/
 namespace Leptos.Reactive
 open Leptos.Wire
@@ -60,6 +85,16 @@ structure DState where
   keys : List Nat := []
   /-- (selector node, number of keys, source expression) -/
   sels : List (Nat × Nat × Expr) := []
+  /-- field nodes of struct signals -/
+  fields : List Nat := []
+  /-- (slice node, field node its setter writes) -/
+  slices : List (Nat × Nat) := []
+  /-- immediate effects -/
+  imms : List Nat := []
+  oncl : Bool := false
+  /-- run counts and liveness when the current op started (for `cl=`) -/
+  runs0 : List Nat := []
+  alive0 : List Bool := []
 
 def parseInt (t : String) : Option Int :=
   if t.startsWith "-" then (t.drop 1).toNat?.map fun n => -(Int.ofNat n) else t.toNat?.map Int.ofNat
@@ -141,6 +176,41 @@ def selStep (e : Expr) (t j : Nat) : Expr :=
 def selBody (e : Expr) (first k : Nat) : Expr :=
   (List.range k).foldr (fun j acc => .seq (selStep e (first + j) j) acc) e
 
+/-- nodes read directly (no duplicates) -/
+def Expr.directReads : Expr → List Nat
+  | .lit _ => []
+  | .rd _ id => [id]
+  | .add a b => (a.directReads ++ b.directReads).eraseDups
+  | .mulc _ a => a.directReads
+  | .ite c t e => (c.directReads ++ t.directReads ++ e.directReads).eraseDups
+  | .seq a b => (a.directReads ++ b.directReads).eraseDups
+  | .wr _ a => a.directReads
+
+/-- signal ancestors of a node, through every read of memo bodies -/
+def ancestors (p : Prog) : Nat → Nat → List Nat
+  | 0, _ => []
+  | f + 1, id =>
+    match p[id]? with
+    | some (.sig _) => [id]
+    | some (.memo b) => (b.directReads.flatMap (ancestors p f)).eraseDups
+    | some (.eff b) => (b.directReads.flatMap (ancestors p f)).eraseDups
+    | none => []
+
+def pairwiseDisjoint : List (List Nat) → Bool
+  | [] => true
+  | x :: rest => rest.all (fun y => !(x.any y.contains)) && pairwiseDisjoint rest
+
+/-- body admitted for an immediate effect (see the header) -/
+def immOk (p : Prog) (keys : List Nat) (b : Expr) : Bool :=
+  let anc := b.directReads.map (ancestors p (p.length + 1))
+  -- depth ≤ 1: a directly read memo reads signals only
+  let shallow := b.directReads.all fun r =>
+    match p[r]? with
+    | some (.memo mb) => mb.directReads.all fun x => (match p[x]? with | some (.sig _) => !keys.contains x | _ => false)
+    | some (.sig _) => true
+    | _ => false
+  b.noWrite && b.noUntracked && !(b.directReads.any keys.contains) && shallow && pairwiseDisjoint anc
+
 def insertSorted (x : Nat) : List Nat → List Nat
   | [] => [x]
   | y :: ys => if x ≤ y then x :: y :: ys else y :: insertSorted x ys
@@ -179,7 +249,7 @@ def firstUnjust (log : List Ev) : Option Nat :=
   log.findSome? fun e => match e with | .unjust i => some i | _ => none
 
 /-- effect runs of one op: `e:v1,v2;e:v…` from the ghost log -/
-def effectRuns (p : Prog) (sels : List (Nat × Nat × Expr)) (log : List Ev) : String :=
+def effectRuns (p : Prog) (sels : List (Nat × Nat × Expr)) (imms : List Nat) (log : List Ev) : String :=
   let isEff (i : Nat) : Bool := match p[i]? with | some (.eff _) => true | _ => false
   -- fold: current list of (effect, reads) in order
   let runs : List (Nat × List Int) := log.foldl (fun acc e =>
@@ -197,6 +267,9 @@ def effectRuns (p : Prog) (sels : List (Nat × Nat × Expr)) (log : List Ev) : S
     match sels.find? (fun (x : Nat × Nat × Expr) => x.1 == i) with
     | some (_, k, _) => (i, vs.take (vs.length / (k + 1)))
     | none => (i, vs)
+  -- immediate effects after the others, by node id
+  let runs := runs.filter (fun x => !imms.contains x.1) ++
+    (imms.flatMap fun i => runs.filter (fun x => x.1 == i))
   ";".intercalate (runs.map fun (i, vs) => s!"{i}:" ++ ",".intercalate (vs.map toString))
 
 /-- does node `x` (by the tracked reads of its last run) depend on signal `sig`? -/
@@ -207,11 +280,14 @@ def dependsOn : Nat → State → Nat → Nat → Bool
 
 /-- wake-ups in order; those made by the key writes of one selector run (a maximal stretch of the log that
 starts at a write of a key node and contains no `ran` and no write of another signal) are sorted -/
-def wokeList (keys : List Nat) (log : List Ev) : List Nat :=
+def wokeList (keys imms : List Nat) (log : List Ev) : List Nat :=
   let (out, seg, _) := log.foldl (fun (acc : List Nat × List Nat × Bool) e =>
     let (out, seg, open_) := acc
     match e with
-    | .woke i => if open_ then (out, seg ++ [i], open_) else (out ++ [i], seg, open_)
+    | .woke i =>
+      -- an immediate effect has no task
+      if imms.contains i then acc else
+      if open_ then (out, seg ++ [i], open_) else (out ++ [i], seg, open_)
     | .set x => if keys.contains x then (out, seg, true) else (out ++ sortNat seg, [], false)
     | .ran _ => (out ++ sortNat seg, [], false)
     | _ => acc) ([], [], false)
@@ -235,6 +311,20 @@ def idleVerdict (p : Prog) (sels : List (Nat × Nat × Expr)) (s : State) (pause
     else none
   some (bad.getD "ok")
 
+/-- `cl=`: per effect, the runs of this op that superseded an earlier run, plus its disposal after it had run -/
+def cleanupCalls (d : DState) : String :=
+  let items : List String := (List.range d.prog.length).filterMap fun (e : Nat) =>
+    match d.prog[e]? with
+    | some (NodeDef.eff _) =>
+      let ran := (d.s.log.filter fun ev => ev == Ev.ran e).length
+      let r0 := d.runs0.getD e 0
+      let reruns := if r0 == 0 then ran - 1 else ran
+      let disposed := if d.alive0.getD e true && !(d.s.get e).alive && (d.s.get e).runs != 0 then 1 else 0
+      let n := reruns + disposed
+      if n == 0 then none else some s!"{e}:{n}"
+    | _ => none
+  ",".intercalate items
+
 def afterOp (m : Mode) (d : DState) (read : Option (Nat × Int)) : String :=
   let s := d.s
   match m with
@@ -254,29 +344,126 @@ def afterOp (m : Mode) (d : DState) (read : Option (Nat × Int)) : String :=
       | none => "ok"
     "runs=" ++ ",".intercalate (runs.map fun (i, c) => s!"{i}:{c}") ++ " ## " ++ verdict
   | .c02 =>
-    let base := "eruns=" ++ effectRuns d.prog d.sels s.log ++ " woke=" ++ showIds (wokeList d.keys s.log) ++ " ready=" ++ showIds (ready s)
+    let base := "eruns=" ++ effectRuns d.prog d.sels d.imms s.log ++ " woke=" ++ showIds (wokeList d.keys d.imms s.log) ++ " ready=" ++ showIds (ready s)
+    let base := if d.oncl then base ++ " cl=" ++ cleanupCalls d else base
     match idleVerdict d.prog d.sels s d.pausedAt with
     | some v => base ++ " ## " ++ v
     | none => base
 
-def clearLog (d : DState) : DState := { d with s := { d.s with log := [] } }
+def clearLog (d : DState) : DState :=
+  { d with s := { d.s with log := [] }, runs0 := d.s.nodes.map (·.runs), alive0 := d.s.nodes.map (·.alive) }
+
+/-- run every woken immediate effect to completion (a run can recompute a memo another one reads) -/
+def flushImm (p : Prog) (imms : List Nat) : Nat → State → State
+  | 0, s => s
+  | k + 1, s =>
+    match imms.find? (fun i => (s.get i).woken) with
+    | some i => flushImm p imms k (pollEff p s i)
+    | none => s
+
+def flush (d : DState) : DState :=
+  if d.imms.isEmpty then d else { d with s := flushImm d.prog d.imms 64 d.s }
+
+/-- `idle` with immediate effects: FIFO polls, flushing after each -/
+def idleImm (p : Prog) (imms : List Nat) : Nat → State → State
+  | 0, s => s
+  | k + 1, s => if (ready s).isEmpty then s else idleImm p imms k (flushImm p imms 64 (pollNth p s 0))
 
 /-- `Effect::new_sync`, `Effect::new_isomorphic` and `Effect::watch` (the body being the dependency function, the handler
 reading nothing) share the task loop and `EffectInner` of `Effect::new`: for the model they are `eff` nodes. -/
 def normKw (ws : List String) : List String :=
   match ws with
-  | kw :: rest => if kw == "seff" || kw == "ieff" || kw == "weff" || kw == "wieff" then "eff" :: rest else ws
+  | kw :: rest =>
+    if kw == "seff" || kw == "ieff" || kw == "weff" || kw == "wieff" || kw == "wseff" || kw == "wsieff" then "eff" :: rest
+    else if kw == "rieff" then "reff" :: rest
+    else ws
   | [] => []
 
-/-- a new body may not read a memoc leaf and may not write a key node -/
-def okBody (d : DState) (b : Expr) : Bool := !b.readsAny d.leaves && !b.writesAny d.keys
+/-- a new body may not read a memoc / memoh leaf or a field node and may not write a key or field node -/
+def okBody (d : DState) (b : Expr) : Bool :=
+  !b.readsAny (d.leaves ++ d.fields) && !b.writesAny (d.keys ++ d.fields)
+
+/-- watch kinds: drop the optional `h<id>` (the signal the handler reads) after checking it is a plain signal -/
+def stripHandler (d : DState) (ws : List String) : List String :=
+  match ws with
+  | kw :: t :: rest =>
+    if (kw == "weff" || kw == "wieff" || kw == "wseff" || kw == "wsieff") && t.startsWith "h" then
+      match (t.drop 1).toString.toNat? with
+      | some h =>
+        match d.prog[h]? with
+        | some (.sig _) => if d.keys.contains h || d.fields.contains h then ["bad-op"] else kw :: rest
+        | _ => ["bad-op"]
+      | none => ["bad-op"]
+    else ws
+  | _ => ws
+
+def addNode (d : DState) (nd : NodeDef) : DState :=
+  { d with prog := d.prog ++ [nd], s := { d.s with nodes := d.s.nodes ++ [initNode nd] } }
+
+/-- `set id v` on a signal node -/
+def doSet (m : Mode) (d : DState) (id : Nat) (v : Int) : DState × String :=
+  let d := clearLog d
+  -- the pause excuse covers only changes made during the pause
+  let d := { d with pausedAt := d.pausedAt.filter fun (e, _) =>
+    !(!(d.s.get e).paused && dependsOn (fuelFor d.prog) d.s e id) }
+  let d := flush { d with s := (step d.prog d.s (.set id v)).1 }
+  (d, afterOp m d none)
 
 def stepLine (m : Mode) (d : DState) (line : String) : DState × String :=
-  match normKw (words line) with
+  match normKw (stripHandler d (words line)) with
   | ["case", n] => ({}, s!"case {n}")
   | ["mode", _] => (d, "ok")
   | ["wrap", _] => (d, "ok")   -- reads go through Signal::from / Signal::derive: transparent for the model
   | ["acc", n] => (d, if n.toNat?.isSome then "ok" else "bad-op")   -- accessor / constructor variety: transparent
+  | ["ssig", a, b] =>
+    match parseInt a, parseInt b with
+    | some a, some b =>
+      let first := d.prog.length
+      let d := addNode (addNode d (.sig a)) (.sig b)
+      let d := { d with fields := d.fields ++ [first, first + 1] }
+      (d, if m == .c02 then "ok ready=" ++ showIds (ready d.s) else "ok")
+    | _, _ => (d, "bad-op")
+  | ["slice", f, g, st] =>
+    match f.toNat?, g.toNat?, st.toNat? with
+    | some f, some g, some st =>
+      -- `f` is the FIRST field node of a struct signal
+      let isFirst := (d.fields.zipIdx.any fun (x, i) => x == f && i % 2 == 0)
+      if isFirst && g ≤ 1 && st ≤ 1 then
+        let id := d.prog.length
+        let d := addNode d (.memo (.seq (.rd true (f + 1 - g)) (.rd true (f + g))))
+        let d := { d with slices := d.slices ++ [(id, f + st)] }
+        (d, if m == .c02 then "ok ready=" ++ showIds (ready d.s) else "ok")
+      else (d, "bad-op")
+    | _, _, _ => (d, "bad-op")
+  | ["sset", id, v] =>
+    match id.toNat?, parseInt v with
+    | some id, some v =>
+      match d.slices.find? (fun (x : Nat × Nat) => x.1 == id) with
+      | some (_, target) => doSet m d target v
+      | none => (d, "bad-op")
+    | _, _ => (d, "bad-op")
+  | "memoh" :: toks =>
+    match parseBody toks with
+    | some b =>
+      if wfNode d.prog d.prog.length (.memo b) && okBody d b then
+        let d := { d with leaves := d.leaves ++ [d.prog.length] }
+        let d := addNode d (.memo b)
+        (d, if m == .c02 then "ok ready=" ++ showIds (ready d.s) else "ok")
+      else (d, "bad-op")
+    | none => (d, "bad-op")
+  | "imeff" :: toks =>
+    match parseBody toks with
+    | some b =>
+      if wfNode d.prog d.prog.length (.eff b) && okBody d b && immOk d.prog d.keys b then
+        let e := d.prog.length
+        let d := addNode d (.eff b)
+        let d := clearLog d
+        -- runs at creation; no task: never woken between steps
+        let s := initRenderEffect d.prog d.s e
+        let d := flush { d with s := s.upd e fun n => { n with woken := false }, imms := d.imms ++ [e] }
+        (d, if m == .c02 then "ok " ++ afterOp m d none else if m == .c09 then afterOp m d none else "ok")
+      else (d, "bad-op")
+    | none => (d, "bad-op")
   | "memoc" :: k :: toks =>
     match parseInt k, parseBody toks with
     | some k, some b =>
@@ -300,12 +487,13 @@ def stepLine (m : Mode) (d : DState) (line : String) : DState × String :=
           keys := d.keys ++ (List.range k).map (first + ·),
           sels := d.sels ++ [(node, k, src)] }
         let d := clearLog d
-        let d := { d with s := initRenderEffect d.prog d.s node }
+        let d := flush { d with s := initRenderEffect d.prog d.s node }
         (d, if m == .c02 then "ok " ++ afterOp m d none else if m == .c09 then afterOp m d none else "ok")
       else (d, "bad-op")
     | _, _ => (d, "bad-op")
   | [op] =>
-    if op == "pauseall" || op == "resumeall" then
+    if op == "oncl" then ({ d with oncl := true }, "ok")
+    else if op == "pauseall" || op == "resumeall" then
       -- `Owner::pause` / `resume` on the root owner reaches every effect's owner
       let d := clearLog d
       let effs := (List.range d.prog.length).filter fun i =>
@@ -319,7 +507,8 @@ def stepLine (m : Mode) (d : DState) (line : String) : DState × String :=
       (d, afterOp m d none)
     else if op == "idle" then
       let d := clearLog d
-      let d := { d with s := (step d.prog d.s .idle).1 }
+      let d := if d.imms.isEmpty then { d with s := (step d.prog d.s .idle).1 }
+               else { d with s := idleImm d.prog d.imms 256 d.s }
       (d, afterOp m d none)
     else (d, "bad-op")
   | "sig" :: [v] =>
@@ -351,7 +540,7 @@ def stepLine (m : Mode) (d : DState) (line : String) : DState × String :=
         let e := d.prog.length
         let d := { d with prog := d.prog ++ [.eff b], s := { d.s with nodes := d.s.nodes ++ [initNode (.eff b)] } }
         let d := clearLog d
-        let d := { d with s := initRenderEffect d.prog d.s e }
+        let d := flush { d with s := initRenderEffect d.prog d.s e }
         (d, if m == .c02 then "ok " ++ afterOp m d none else if m == .c09 then afterOp m d none else "ok")
       else (d, "bad-op")
     | none => (d, "bad-op")
@@ -359,13 +548,7 @@ def stepLine (m : Mode) (d : DState) (line : String) : DState × String :=
     match id.toNat?, parseInt v with
     | some id, some v =>
       match (if d.keys.contains id then none else d.prog[id]?) with
-      | some (.sig _) =>
-        let d := clearLog d
-        -- the pause excuse covers only changes made during the pause
-        let d := { d with pausedAt := d.pausedAt.filter fun (e, _) =>
-          !(!(d.s.get e).paused && dependsOn (fuelFor d.prog) d.s e id) }
-        let d := { d with s := (step d.prog d.s (.set id v)).1 }
-        (d, afterOp m d none)
+      | some (.sig _) => doSet m d id v
       | _ => (d, "bad-op")
     | _, _ => (d, "bad-op")
   | ["read", id] =>
@@ -375,7 +558,7 @@ def stepLine (m : Mode) (d : DState) (line : String) : DState × String :=
       | some (.sig _) | some (.memo _) =>
         let d := clearLog d
         let (s, v) := step d.prog d.s (.read id)
-        let d := { d with s := s }
+        let d := flush { d with s := s }
         (d, afterOp m d (some (id, v.getD 0)))
       | _ => (d, "bad-op")
     | none => (d, "bad-op")
@@ -385,18 +568,18 @@ def stepLine (m : Mode) (d : DState) (line : String) : DState × String :=
       let d := clearLog d
       let r := ready d.s
       let polled := if r.isEmpty then "none" else toString (r.getD (i % r.length) 0)
-      let d := { d with s := (step d.prog d.s (.poll i)).1 }
+      let d := flush { d with s := (step d.prog d.s (.poll i)).1 }
       (d, (if m == .c02 then s!"polled={polled} " else "") ++ afterOp m d none)
     | none => (d, "bad-op")
   | [op, e] =>
     if op == "pause" || op == "resume" || op == "dispose" then
       match e.toNat? with
       | some e =>
-        match (if d.sels.any (fun (x : Nat × Nat × Expr) => x.1 == e) then none else d.prog[e]?) with
+        match (if d.sels.any (fun (x : Nat × Nat × Expr) => x.1 == e) || d.imms.contains e then none else d.prog[e]?) with
         | some (.eff _) =>
           let d := clearLog d
           let o : Op := if op == "pause" then .pause e else if op == "resume" then .resume e else .dispose e
-          let d := { d with s := (step d.prog d.s o).1 }
+          let d := flush { d with s := (step d.prog d.s o).1 }
           let d := if op == "pause" then
               { d with pausedAt := (e, (d.s.get e).runs) :: d.pausedAt.filter (fun x => x.1 != e) } else d
           (d, afterOp m d none)
